@@ -40,6 +40,7 @@ static void run_modes(const V *expect, long end_of_value, int numeric_compare)
 		struct json_tokener *tok = json_tokener_new();
 		json_tokener_set_flags(tok, modes[m]);
 		MC_COUNT("calls", 1);
+		errno = mc_errno_pre;
 		struct json_object *o = json_tokener_parse_ex(tok, buf, (int)TL + 1);
 		enum json_tokener_error e = json_tokener_get_error(tok);
 		size_t end = json_tokener_get_parse_end(tok);
@@ -143,6 +144,7 @@ static void all_extensions(void)
 				char *buf = mc_guard_buf(TL + 1);
 				memcpy(buf, T, TL);
 				buf[TL] = 0;
+				errno = mc_errno_pre;
 				struct json_object *o = json_tokener_parse_ex(tok, buf, (int)TL + 1);
 				if (json_tokener_get_error(tok) != json_tokener_success)
 					mc_violation("base-document-rejected", "valid base document rejected (strict=%d)", strict);
